@@ -784,3 +784,159 @@ lemma(
     unstub=[f"{GEOM}:BoundingBox.transform"],
     note="(p, q) is a ghost point of the tile, universally quantified; completeness of src.tiles(box) for a pixel box is range_from_bbox's contract; the enumeration over all destination tiles (numpy.ndindex) is covered by the bounded check",
 )
+
+
+# ---- tiles() / grid_intersect(): data flow over ghost geometry (shapely / pyproj are recording ghosts) ---------------------------------
+
+
+class _GhostPoly:
+    def __init__(self, tag, crs, empty=False, touching=()):
+        self.tag, self.crs, self.is_empty, self.touching = tag, crs, empty, set(touching)
+        self.boundingbox = ("bbox-of", tag)
+        self.log = []
+
+    def to_crs(self, crs, **kw):
+        self.log.append(("to_crs", crs, kw))
+        return _GhostPoly(("reprojected", self.tag), crs, self.is_empty, self.touching)
+
+    def disjoint(self, other):
+        return other[1] not in self.touching  # other = ("extent-of", idx)
+
+    def __and__(self, o):
+        return _GhostPoly(("and", self.tag, o.tag), self.crs, False, self.touching & o.touching if (self.touching and o.touching) else (self.touching or o.touching))
+
+
+def _lemma_tiles_flow(kind, same_crs, yy0, yy1, xx0, xx1):
+    m = repo(GBX)
+    GT = m.GeoboxTiles
+    tgt = crs_like = object()
+    calls = []
+    touching = {(yy0, xx0), (yy1 - 1, xx1 - 1), (yy0, xx1 - 1)}
+
+    class Base:
+        crs = tgt
+
+    class Tile:
+        def __init__(self, idx):
+            self.extent = ("extent-of", idx)
+
+    gt = object.__new__(GT)
+    object.__setattr__(gt, "_gbox", Base())
+    saved = (GT.__dict__["range_from_bbox"], GT.__dict__["__getitem__"], m.BoundingBox)
+    try:
+        GT.range_from_bbox = lambda self, bbox: (calls.append(("range_from_bbox", bbox)), (range(yy0, yy1), range(xx0, xx1)))[1]
+        GT.__getitem__ = lambda self, idx: Tile(idx)
+        if kind == "pix_bbox":
+
+            class BB:  # a BoundingBox without CRS: the pixel-domain special case
+                crs = None
+
+            m.BoundingBox = BB
+            q = BB()
+            out = list(gt.tiles(q))
+            claim(calls == [("range_from_bbox", q)], "pixel-domain box: ranges asked for that very box")
+            claim(out == [(y, x) for y in range(yy0, yy1) for x in range(xx0, xx1)], "pixel-domain box: every tile of the ranges, row-major")
+            return
+        poly = _GhostPoly("query", tgt if same_crs else object(), empty=(kind == "empty"), touching=touching)
+        if kind == "crs_bbox":
+
+            class BB:
+                crs = poly.crs
+                polygon = poly
+
+            m.BoundingBox = BB
+            q = BB()
+        else:
+            q = poly
+        out = list(gt.tiles(q))
+    finally:
+        GT.range_from_bbox, GT.__getitem__, m.BoundingBox = saved
+    if kind == "empty":
+        claim(out == [] and calls == [], "empty query: no tiles, nothing computed")
+        return
+    if same_crs:
+        claim(poly.log == [], "same CRS: the query is used as is")
+        used = "query"
+    else:
+        claim(len(poly.log) == 1 and poly.log[0][1] is tgt and poly.log[0][2] == {"check_and_fix": True}, "other CRS: the query is reprojected once into the raster's CRS (repairing projection artefacts)")
+        used = ("reprojected", "query")
+    claim(calls == [("range_from_bbox", ("bbox-of", used))], "candidate ranges come from the bounding box of the (reprojected) query")
+    want = [(y, x) for y in range(yy0, yy1) for x in range(xx0, xx1) if (y, x) in touching]
+    claim(out == want, "exactly the candidate tiles whose extent is not disjoint from the query, in row-major order, each once")
+
+
+lemma(
+    "geoboxtiles.tiles_flow",
+    ["C12"],
+    inputs=dict(kind=OneOf("geometry", "crs_bbox", "pix_bbox", "empty"), same_crs=Bool(), yy0=OneOf(0, 1), yy1=OneOf(1, 3), xx0=OneOf(0, 2), xx1=OneOf(2, 4)),
+    body=_lemma_tiles_flow,
+    unstub=[f"{GBX}:GeoboxTiles.tiles"],
+    note="data flow of the real GeoboxTiles.tiles over ghost geometry: which box the candidate ranges come from and which candidates survive the shapely filter; candidate completeness is range_from_bbox's contract (proved), the predicates are shapely's",
+)
+
+
+def _lemma_grid_intersect_flow(linear, same_crs):
+    m = repo(GBX)
+    GT = m.GeoboxTiles
+    log = []
+    crs_a, crs_b = object(), object()
+
+    class Base:
+        def __init__(self, name, crs):
+            self.name, self.crs = name, crs
+            self.extent = _GhostPoly(("extent", name), crs)
+
+        def footprint(self, crs, buffer=0, npoints=100):
+            log.append(("footprint", self.name, crs, buffer))
+            return _GhostPoly(("footprint", self.name, crs, buffer), crs)
+
+    class Tile:
+        def __init__(self, owner, idx):
+            self.extent = ("extent-of", owner, idx)
+
+    def mk(name, crs):
+        g = object.__new__(GT)
+        object.__setattr__(g, "_gbox", Base(name, crs))
+        return g
+
+    dst, src = mk("dst", crs_a), mk("src", crs_a if same_crs else crs_b)
+    names = {id(dst): "dst", id(src): "src"}
+    saved = (GT.__dict__["_check_linear"], GT.__dict__["_grid_intersect_linear"], GT.__dict__["tiles"], GT.__dict__["__getitem__"])
+    try:
+        GT._check_linear = lambda self, other: (log.append(("check_linear", names[id(self)], names[id(other)])), "A" if linear else None)[1]
+        GT._grid_intersect_linear = lambda self, other, A: (log.append(("linear", names[id(self)], names[id(other)], A)), {"linear": True})[1]
+
+        def tiles(self, q):
+            log.append(("tiles", names[id(self)], q.tag if hasattr(q, "tag") else q))
+            return iter([(0, 1), (2, 0)]) if names[id(self)] == "dst" else iter([("s", q)])
+
+        GT.tiles = tiles
+        GT.__getitem__ = lambda self, idx: Tile(names[id(self)], idx)
+        out = dst.grid_intersect(src)
+    finally:
+        GT._check_linear, GT._grid_intersect_linear, GT.tiles, GT.__getitem__ = saved
+    claim(log[0] == ("check_linear", "dst", "src"), "first: are the two grids related by scale + translation in one CRS?")
+    if linear:
+        claim(log[1:] == [("linear", "dst", "src", "A")] and out == {"linear": True}, "yes: the exact pixel-space computation, with that transform")
+        return
+    if same_crs:
+        claim(not any(e[0] == "footprint" for e in log), "same CRS (rotated / sheared pair): the source extent is used directly")
+        fp = ("extent", "src")
+    else:
+        fps = [e for e in log if e[0] == "footprint"]
+        claim(sorted(e[1] for e in fps) == ["dst", "src"] and all(e[2] == 4326 and e[3] == 2 for e in fps), "other CRS: both footprints in lon/lat, buffered by 2 pixels")
+        fp = ("reprojected", ("and", ("footprint", "src", 4326, 2), ("footprint", "dst", 4326, 2)))
+    tl = [e for e in log if e[0] == "tiles"]
+    claim(tl[0] == ("tiles", "dst", fp), "destination tiles that can hold data: those meeting the source footprint (in the destination's CRS)")
+    claim(tl[1:] == [("tiles", "src", ("extent-of", "dst", (0, 1))), ("tiles", "src", ("extent-of", "dst", (2, 0)))], "for each of them: the source tiles meeting THAT destination tile's extent")
+    claim(out == {(0, 1): [("s", ("extent-of", "dst", (0, 1)))], (2, 0): [("s", ("extent-of", "dst", (2, 0)))]}, "the dependency map lists exactly those, per destination tile; tiles without data are absent")
+
+
+lemma(
+    "geoboxtiles.grid_intersect_flow",
+    ["C12", "C13"],
+    inputs=dict(linear=Bool(), same_crs=Bool()),
+    body=_lemma_grid_intersect_flow,
+    unstub=[f"{GBX}:GeoboxTiles.grid_intersect"],
+    note="data flow of the real grid_intersect over ghost tilings / footprints: dispatch to the linear path, footprint construction for the general path, per-tile source queries",
+)
